@@ -38,6 +38,11 @@ impl Stack {
         self.values.last().expect("to peek a value")
     }
 
+    #[cfg(tera_verif)]
+    pub(crate) fn len(&self) -> usize {
+        self.values.len()
+    }
+
     /// Only used by list comprehension to avoid pop + push
     #[inline]
     pub(crate) fn peek_mut(&mut self) -> &mut (Value, SpanRange) {
